@@ -37,6 +37,7 @@ PARTIAL = {
         'reads a replaced internal gate, same interface, only cone gates touched. The steps of the "all outputs '
         'trivial" branch have their own validator (check_merge, C04_merge_substitution), also in validator form',
 }
+LEVEL_CATEGORY = 'translation_validation'
 LEVEL_TEXT = ('translation validation with a verified validator, plus proof of the pattern simulation. Proved in Coq for '
               'the model (eval_pattern / max_pattern / _generate_inputs_tt regenerated from the current source by '
               'translator t5, the simulation loops hand-written and compared with _get_subcircuits, _eval_dont_cares, '
